@@ -1,13 +1,19 @@
 (* C04 — ROS 2 executor analyses (ECRTS'19) are safe under reservation supply.  Statements only.
-   PARTIAL: proved for the event-source analysis (Lemma 1) against FIFO service under EVERY legal budget
-   placement of a periodic / deadline-constrained reservation.  The timer, polling-point-callback and
-   processing-chain analyses (Lemmas 3, 4/5, 8) are NOT proved sound against an executor model; for them the
-   development proves only their exact characterisation as maxima over step offsets (C07) and the supply
-   theorems they rest on (C08, C09); their safety is exercised by the executor simulation oracle of this check. *)
+   Proved sound under EVERY legal budget placement of a periodic / deadline-constrained reservation:
+   - the event-source analysis (Lemma 1) against FIFO service;
+   - the polling-point-callback analysis (Lemmas 4/5) and the timer analysis (Lemma 3) against an ABSTRACT
+     non-preemptive dispatcher class (Spec/NonPreemptive.v) that contains the ROS 2 executor: instances run to
+     completion once started (only supplied slots), the dispatcher never idles in a supplied slot while an instance
+     is pending, instances of one callback are served in arrival order, and (timer) an instance outside the class
+     {analysed timer, higher-priority timers} never starts while a class instance is pending.
+   PARTIAL: the processing-chain analysis (Lemma 8) is NOT proved sound (release-on-completion semantics of chains
+   is not mechanised); for it the development proves its exact characterisation (C07) only, and its safety is
+   exercised by the executor simulation oracle of this check. *)
 From Coq Require Import Arith NArith List Lia Bool.
 From RTA.Model Require Import Base Arrival Wcet Demand Supply Eval WellFormed.
 From RTA.Spec Require Import Sched Events TaskModel Reservation SupplySched.
-From RTA.Proofs Require Import SupplyProofs ReservationProofs FifoEndToEnd EsSound.
+From RTA.Spec Require Import NonPreemptive.
+From RTA.Proofs Require Import SupplyProofs ReservationProofs FifoEndToEnd EsSound PpSound.
 
 (* every reservation schedule a supply model admits delivers at least provided_service in EVERY window *)
 Theorem C04_supply_bound_holds_for_every_budget_placement : forall sb sigma, wf_sb sb -> supply_admits sb sigma ->
@@ -28,3 +34,27 @@ Proof. exact event_source_sound. Qed.
 (* the schedule-level core, for an abstract supply-bound function *)
 Definition C04_fifo_under_supply_bound := fifo_under_supply_bound.
 
+
+(* polling-point callback: the interfering demand is the aggregate of ALL other callbacks *)
+Theorem C04_polling_point_callback_sound : forall dbg sb (tasks : list task) i limit R jobs sched sigma,
+  wf_sb sb -> supply_admits sb sigma -> Forall fifo_task_ok tasks -> (i < length tasks)%nat ->
+  e_pp dbg sb (rb_of (nth i tasks (Never, 0))) (Agg (map rb_of (remove_nth i tasks))) limit = ROk R ->
+  valid jobs sched -> uses_supply sched sigma -> work_conserving_under jobs sched sigma ->
+  runs_to_completion_under jobs sched sigma -> fifo_within_task jobs sched ->
+  respects_curves tasks jobs -> respects_costs tasks jobs ->
+  forall k, (k < length jobs)%nat -> j_task (nth k jobs (mkJob 0 0 0)) = i -> completes_within jobs sched k (N.to_nat R).
+Proof. exact pp_sound. Qed.
+(* timer: interference = the higher-priority timers (hp), blocking bound B >= the WCET of every other callback *)
+Theorem C04_timer_sound : forall dbg sb (tasks : list task) i (hp : nat -> bool) B limit R jobs sched sigma,
+  wf_sb sb -> supply_admits sb sigma -> Forall fifo_task_ok tasks -> (i < length tasks)%nat -> hp i = false ->
+  (forall i', (i' < length tasks)%nat -> i' <> i -> hp i' = false -> snd (nth i' tasks (Never, 0)) <= B) ->
+  e_timer dbg sb (rb_of (nth i tasks (Never, 0))) (Agg (map rb_of (select_tasks hp tasks))) B limit = ROk R ->
+  valid jobs sched -> uses_supply sched sigma -> work_conserving_under jobs sched sigma ->
+  runs_to_completion_under jobs sched sigma -> fifo_within_task jobs sched ->
+  precedence_respected jobs sched (fun i' => (i' =? i)%nat || hp i') ->
+  respects_curves tasks jobs -> respects_costs tasks jobs ->
+  forall k, (k < length jobs)%nat -> j_task (nth k jobs (mkJob 0 0 0)) = i -> completes_within jobs sched k (N.to_nat R).
+Proof. exact timer_sound. Qed.
+(* the witness of known finding C07-ecrts19-pruning is NOT an unsoundness: real arrival offsets are strictly below the
+   maximum busy window, the pruned analysis' bound 5 holds for every compliant job set and abstract schedule *)
+Definition C04_c07_witness_is_sound := c07_witness_sound.
